@@ -4,7 +4,8 @@
 # stores the JSON summary next to it.
 cd "$(dirname "$0")/.."
 r="$1"
-for d in /tmp/seedwork/out$r-C*; do
+for i in $(seq -w 1 20); do
+  d=/tmp/seedwork/out$r-C$i
   id=$(basename "$d" | sed "s/out$r-//")
   [ -f "$d/patch.diff" ] || continue
   [ -f "$d/verify.json" ] && continue
